@@ -43,7 +43,7 @@ Lemma safe_emit_quiet {R} t name args (k : prog R) v Q :
 Proof.
   intros N1 N2 N3 N4 Hk. apply safe_emit_step. intros g vs rf tr Hi Hv.
   exists v, rf. split; [|exact Hk]. rewrite <- Hv.
-  apply (step_same g g); auto.
+  apply (step_same g g); [exact Hi|auto|auto|auto|auto|auto| | |].
   - intros n. now apply occ_cli_other.
   - intros x. now apply acnt_cli_other.
   - now apply disc_cli_other.
@@ -58,8 +58,9 @@ Lemma safe_read {R} t (f : G -> G * V * list ev) (k : V -> prog R) v Q :
 Proof.
   intros Hf Hk. apply safe_step. intros g vs rf tr Hi Hv. exists v, rf.
   destruct (Hf g) as (E & kd & o & ok & Ees & Ho). rewrite E, Ees. split; [|eapply Hk; eauto].
-  rewrite <- Hv. apply (step_same g g); auto.
+  rewrite <- Hv. apply (step_same g g); [exact Hi|auto|auto|auto|auto|auto| | |].
   - intros n. apply occ_acc.
+  - intros x. reflexivity.
   - now apply disc_acc_other.
 Qed.
 
@@ -83,7 +84,7 @@ Proof.
   - exists (match plock g n with Some x => LBitS n (2 * k) x | None => LBitA n (2 * k) end, s), (updn rf n (t :: rf n)).
     split; [apply step_cas_lock; auto|]. cbn. destruct (plock g n); reflexivity.
   - exists (Idle, s), rf. split.
-    + rewrite <- Hv. apply (step_same g g); auto; [intros; apply occ_acc|apply disc_acc_other, nlo_ref].
+    + rewrite <- Hv. apply (step_same g g); [exact Hi|auto|auto|auto|auto|auto|intros; apply occ_acc|intros; reflexivity|apply disc_acc_other, nlo_ref].
     + apply IH. apply clr_even.
 Qed.
 
@@ -104,11 +105,12 @@ Proof.
     assert (Hu : uses (vs t) n x) by (rewrite Hv; right; cbn; now rewrite !Nat.eqb_refl).
     destruct (lspin g x) eqn:Hs.
     + exists (LWait n x, s), rf. split; [|apply IH].
-      rewrite <- Hv. apply (step_same g); auto.
+      destruct (lock_obj_allocated g vs rf tr t n x Hi Hu) as [A B].
+      rewrite <- Hv. apply (step_same g); [exact Hi|auto|auto| |auto|auto| | |].
       * intros x0. cbn. unfold updn. destruct (Nat.eqb_spec x0 x); [subst; auto|reflexivity].
       * intros; apply occ_acc.
-      * destruct Hi as (_ & _ & _ & _ & _ & HD). destruct (lock_obj_allocated g vs rf tr t n x) as [A B]; auto.
-        { repeat split; try tauto. } eapply disc_lacc; eauto.
+      * intros; reflexivity.
+      * destruct Hi as (_ & _ & _ & _ & _ & HD). eapply disc_lacc; eauto.
     + exists (LGot n x, s), rf. split; [apply step_xchg_ok; auto|]. cbn. eauto.
   - apply safe_step. intros g vs rf tr Hi Hv. cbn [a_ld_l fst snd vb].
     assert (Hu : uses (vs t) n x) by (rewrite Hv; right; cbn; now rewrite !Nat.eqb_refl).
@@ -159,7 +161,7 @@ Proof.
     + exists (UBit n 2 (plock g n), s), rf. rewrite E2 in *. split; [apply step_cas_unlock_take; auto|]. cbn. now rewrite E2.
     + exists (UBit n (2 * k) None, s), rf. split; [apply step_cas_unlock_keep; auto|]. cbn. reflexivity.
   - exists (URel n, s), rf. split.
-    + rewrite <- Hv. apply (step_same g g); auto; [intros; apply occ_acc|apply disc_acc_other, nlo_ref].
+    + rewrite <- Hv. apply (step_same g g); [exact Hi|auto|auto|auto|auto|auto|intros; apply occ_acc|intros; reflexivity|apply disc_acc_other, nlo_ref].
     + apply IH. apply clr_even.
 Qed.
 
